@@ -1,5 +1,34 @@
 (** C18 — Distances, angles, dihedrals and guessed bonds depend only on shape.
-    Property theorems only.  compute_distance / compute_angle / compute_dihedral are the definitions
+    Property theorems only.
+
+    CLAUSE MAP (statement of C18 in properties.jsonl, clause by clause)
+    1. agree with the textbook definitions ........ distance: C18_distance_is_textbook, C18_distance_R; angle:
+                                                    C18_angle_argument_is_textbook (any field), C18_angle_R_is_textbook; dihedral:
+                                                    C18_dihedral_is_textbook (any field), C18_dihedral_R_is_textbook, _R_unique,
+                                                    _R_positive_multiple.
+    2. unchanged by translation + proper rotation . C18_rigid_invariance (distance and angle: any orthogonal matrix).
+    3. ranges [0,inf), [0,pi], [-pi,pi] ........... C18_distance_R, C18_angle_R_range (ALL inputs, degenerate ones included),
+                                                    C18_dihedral_R_is_textbook + C18_atan2_spec (non-degenerate quadruples).
+    4. reflection flips / reversal keeps dihedral . C18_reflection_flips_dihedral, C18_dihedral_R_reflection;
+                                                    C18_reversal_preserves_dihedral, C18_reversal_preserves_angle_distance.
+    5. degrees = radians * 180/pi ................. C18_degrees.
+    6. row-wise, matrix, index-based forms agree .. C18_batched_distance_angle, C18_batched_dihedral, C18_batched_full (n rows =
+                                                    the rows one by one, arccos / arctan2 / degrees included),
+                                                    C18_broadcast_distance (one row against n rows), C18_measure_index_form,
+                                                    C18_distance_matrix_entry, C18_entry_point_defaults (Molecule.measure(ms) =
+                                                    measure_coordinates(geometry, ms, degrees=True); measure_coordinates and the
+                                                    kernels default to radians; defaults read from the signatures).
+                                                    1-D inputs: equal to the (1,3) form by C18_measure_index_form (last two parts).
+    7. guessed bonds: exactly the pairs i<j closer
+       than thr (r_i + r_j) ....................... C18_connectivity_spec, C18_connectivity_boundary_strict ("closer" is strict:
+                                                    a pair exactly at the scaled sum is not bonded), C18_connectivity_R_squared;
+       unchanged by rigid motion .................. C18_connectivity_rigid_invariant (any orthogonal matrix);
+       relabels under atom reordering ............. C18_connectivity_relabel.
+    The hand models of the glue (measure dispatch, distance_matrix, the bond test) are the translated source:
+    C18_generated_glue_is_model.  Only correspondence/oracle: the radii lookup (C17's business), the default_connectivity
+    post-processing and the single/many wrapping of measure_coordinates (pinned structurally by the translator), binary64 effects.
+
+    compute_distance / compute_angle / compute_dihedral are the definitions
     of Gen/Dihedral.v, regenerated from qcelemental/util/misc.py on every run ([..._pre] = the code up
     to the array(s) handed to arccos / arctan2).  Part A holds over ANY field with a square-root
     function (no axioms); part B is over the real numbers (Coq Reals: sqrt, acos, and an atan2 defined
@@ -7,7 +36,7 @@
 From Coq Require Import List Bool ZArith Reals QArith.
 Require Import QV.Common.Outcome QV.Common.Geo3 QV.Common.Geo3Np QV.Common.Geo3Facts QV.Common.Geo3R QV.Common.Geo3Q.
 Require Import QV.Gen.Dihedral QV.Model.Geometry QV.Proofs.Geometry QV.Proofs.GeometryR.
-Require Import QV.Common.Geo3Glue QV.Gen.GeoGlue QV.Proofs.GeoGlue.
+Require Import QV.Common.Geo3Glue QV.Gen.GeoGlue QV.Proofs.GeoGlue QV.Proofs.GeoMore.
 Import ListNotations.
 
 (** * Part A: any field *)
@@ -186,6 +215,47 @@ Proof.
   intros. apply measure_via_is_model.
 Qed.
 
+
+(** the FULL batched functions (arccos / arctan2 and the degrees flag included): n rows give the list of what each row gives
+    alone (take rows = [r] for the one-row form), for every number of rows *)
+Theorem C18_batched_full : forall (K : Fops), is_field K -> forall (rows : list (vec3 K * vec3 K * vec3 K * vec3 K)) (dg : bool),
+  let g1 := fun r : vec3 K * vec3 K * vec3 K * vec3 K => fst (fst (fst r)) in
+  let g2 := fun r : vec3 K * vec3 K * vec3 K * vec3 K => snd (fst (fst r)) in
+  let g3 := fun r : vec3 K * vec3 K * vec3 K * vec3 K => snd (fst r) in
+  let g4 := fun r : vec3 K * vec3 K * vec3 K * vec3 K => snd r in
+  let ang := fun r => angle_of K dg (clip1 K (fopp K (f1 K)) (f1 K) (code_cos K (g1 r) (g2 r) (g3 r))) in
+  let dih := fun r => dihedral_of K dg (dihYc K (vsub (g2 r) (g1 r)) (vsub (g3 r) (g2 r)) (vsub (g4 r) (g3 r)))
+                                       (dihXc K (vsub (g2 r) (g1 r)) (vsub (g3 r) (g2 r)) (vsub (g4 r) (g3 r))) in
+  compute_angle K (A2 (map g1 rows)) (A2 (map g2 rows)) (A2 (map g3 rows)) dg = Ok (A1 (map ang rows))
+  /\ compute_dihedral K (A2 (map g1 rows)) (A2 (map g2 rows)) (A2 (map g3 rows)) (A2 (map g4 rows)) dg = Ok (A1 (map dih rows))
+  /\ (forall r, compute_angle K (A2 [g1 r]) (A2 [g2 r]) (A2 [g3 r]) dg = Ok (A1 [ang r]))
+  /\ (forall r, compute_dihedral K (A2 [g1 r]) (A2 [g2 r]) (A2 [g3 r]) (A2 [g4 r]) dg = Ok (A1 [dih r])).
+Proof.
+  intros K Kf rows dg g1 g2 g3 g4 ang dih.
+  split; [apply (angle_batched_full K)|]. split; [apply (dihedral_batched_full K Kf)|].
+  split; intro r.
+  - apply (angle_batched_full K g1 g2 g3 [r] dg).
+  - apply (dihedral_batched_full K Kf g1 g2 g3 g4 [r] dg).
+Qed.
+
+(** one row against n rows (numpy broadcasting of a (1,3) array): the row is measured against every row *)
+Theorem C18_broadcast_distance : forall (K : Fops) (p : vec3 K) (qs : list (vec3 K)),
+  compute_distance K (A2 [p]) (A2 qs) = Ok (A1 (map (fun q => vnorm (vsub p q)) qs)).
+Proof. intros K p qs. rewrite <- (map_id qs) at 1. apply (distance_broadcast K p (fun q => q) qs). Qed.
+
+(** the entry points and their keyword defaults (read from the signatures on every run; Molecule.measure's body is pinned to
+    `return measure_coordinates(self.geometry, measurements, degrees=degrees)`): Molecule.measure answers in degrees unless told
+    otherwise, measure_coordinates and the kernels in radians *)
+Theorem C18_entry_point_defaults : forall (K : Fops) (coords : list (vec3 K)) (ms : list (list Z)) (dg : option bool),
+  measure_coordinates_call K coords ms dg = measure K coords (match dg with Some d => d | None => false end) ms
+  /\ molecule_measure_call K coords ms dg = measure K coords (match dg with Some d => d | None => true end) ms
+  /\ compute_angle_degrees_default = false /\ compute_dihedral_degrees_default = false
+  /\ guess_connectivity_threshold_default = (6%Z, 5%positive).
+Proof.
+  intros. destruct (measure_calls K coords ms dg) as [A B]. destruct kernel_defaults as [C [D E]].
+  repeat split; assumption.
+Qed.
+
 (** * Part B: the real numbers *)
 Local Open Scope R_scope.
 
@@ -254,6 +324,12 @@ Theorem C18_connectivity_R_squared : forall (thr : R) (atoms : list (atom RK)),
   guess_connectivity RK thr atoms = guess_connectivity_sq RK thr atoms.
 Proof. exact connectivity_R_sq. Qed.
 
+
+(** "closer than" is strict: a pair at distance exactly thr (r_i + r_j) is not bonded *)
+Theorem C18_connectivity_boundary_strict : forall (thr : R) (a b : atom RK),
+  sqrt (norm2 (vsub (fst a) (fst b))) = (snd a + snd b) * thr -> bonded RK thr a b = false.
+Proof. exact bonded_boundary_R. Qed.
+
 (** * Non-vacuity *)
 Example C18_ex_R_is_field : is_field RK.
 Proof. exact RK_field. Qed.
@@ -311,6 +387,9 @@ Print Assumptions C18_connectivity_spec.
 Print Assumptions C18_connectivity_rigid_invariant.
 Print Assumptions C18_connectivity_relabel.
 Print Assumptions C18_generated_glue_is_model.
+Print Assumptions C18_batched_full.
+Print Assumptions C18_broadcast_distance.
+Print Assumptions C18_entry_point_defaults.
 Print Assumptions C18_angle_R_is_textbook.
 Print Assumptions C18_angle_R_range.
 Print Assumptions C18_distance_R.
@@ -320,3 +399,4 @@ Print Assumptions C18_dihedral_R_unique.
 Print Assumptions C18_dihedral_R_positive_multiple.
 Print Assumptions C18_dihedral_R_reflection.
 Print Assumptions C18_connectivity_R_squared.
+Print Assumptions C18_connectivity_boundary_strict.
